@@ -2,12 +2,19 @@
    Statements only; every proof is [exact <lemma of Proofs/C01.v>].  The model functions (Line_/Quad_/Cubic_
    pointAtTime, splitAtTime, derivative, Point_lerp) are regenerated from /repo/src/beziers by tools/py2v.py
    on every run, instantiated at the reals (ROps).
-   NOT covered by a theorem: the floating-point clause (<= 1e-12 * max|coord|); it is measured against exact
-   rational evaluation by the correspondence/search stage and reported as tested. *)
+   The floating-point clause (<= 1e-12 * max|coord|) IS covered for evaluation, lerp, splitting and the derivative
+   segments (C01_*_float_close, C01_*_float_1e12): with Flocq's model of binary64 (through the standard library's
+   FloatAxioms specification of the primitive operations), for finite control coordinates of magnitude <= M <= 2^1000
+   and finite t in [0,1] the binary64 instance of the SAME regenerated text is within k*2^-53*M + k'*2^-1075 (k <= 74
+   for evaluation, 199 for the cubic hodograph) of the real instance on the real values of the inputs, hence within
+   1e-12*M + 2^-1070, and within 1e-12*M when M >= 2^-1000 (the absolute term is underflow and cannot be dropped:
+   coordinates 2^-1074 at t = 1/2 evaluate to 0).  NOT covered: the two retrace identities in floating point for
+   arbitrary s (they follow from the above by the triangle inequality plus the real identity; measured only). *)
+From Flocq Require Import Core.   (* bpow, radix2 for the float-clause statements; imported first so that [float] below is PrimFloat.float *)
 From Coq Require Import PrimFloat.
 From Coq Require Import ZArith List Bool Reals.
 From Coquelicot Require Import Coquelicot.
-From BZ Require Import Base.Ops Gen.Point Gen.Line Gen.Quad Gen.Cubic Proofs.C01.
+From BZ Require Import Base.Ops Gen.Point Gen.Line Gen.Quad Gen.Cubic Proofs.C01 Proofs.C01float Base.FloatErr.
 Import ListNotations.
 Open Scope R_scope.
 
@@ -61,6 +68,72 @@ Proof. exact lerp_spec. Qed.
 (* non-vacuity on the suite's quadratic *)
 Theorem C01_example_split : q1 (fst (Quad_splitAtTime ROps (Q3 (P 150 40) (P 80 30) (P 105 150)) (1/5))) = P 136 38.
 Proof. exact quad_split_example. Qed.
+Theorem C01_lerp_float_close :
+  forall M (a b : pt float) t, M <= Mcap -> pt_ok M a -> pt_ok M b -> t_ok t -> pt_close (Point_lerp FOps a b t) (Point_lerp ROps (ptR a) (ptR b) (FR t)) (7 * u * M + 4 * eta).
+Proof. exact lerp_float_close. Qed.
+Theorem C01_line_eval_float_close :
+  forall M (s : seg2 float) t, M <= Mcap -> seg2_ok M s -> t_ok t -> pt_close (Line_pointAtTime FOps s t) (Line_pointAtTime ROps (seg2R s) (FR t)) (7 * u * M + 4 * eta).
+Proof. exact line_eval_float_close. Qed.
+Theorem C01_quad_eval_float_close :
+  forall M (s : seg3 float) t, M <= Mcap -> seg3_ok M s -> t_ok t -> pt_close (Quad_pointAtTime FOps s t) (Quad_pointAtTime ROps (seg3R s) (FR t)) (26 * u * M + 6 * eta).
+Proof. exact quad_eval_float_close. Qed.
+Theorem C01_cubic_eval_float_close :
+  forall M (s : seg4 float) t, M <= Mcap -> seg4_ok M s -> t_ok t -> pt_close (Cubic_pointAtTime FOps s t) (Cubic_pointAtTime ROps (seg4R s) (FR t)) (74 * u * M + 8 * eta).
+Proof. exact cubic_eval_float_close. Qed.
+Theorem C01_line_split_float_close :
+  forall M (s : seg2 float) t, M <= Mcap -> seg2_ok M s -> t_ok t -> seg2_close (fst (Line_splitAtTime FOps s t)) (fst (Line_splitAtTime ROps (seg2R s) (FR t))) (7 * u * M + 4 * eta) /\ seg2_close (snd (Line_splitAtTime FOps s t)) (snd (Line_splitAtTime ROps (seg2R s) (FR t))) (7 * u * M + 4 * eta).
+Proof. exact line_split_float_close. Qed.
+Theorem C01_quad_split_float_close :
+  forall M (s : seg3 float) t, M <= Mcap -> seg3_ok M s -> t_ok t -> seg3_close (fst (Quad_splitAtTime FOps s t)) (fst (Quad_splitAtTime ROps (seg3R s) (FR t))) (25 * u * M + 10 * eta) /\ seg3_close (snd (Quad_splitAtTime FOps s t)) (snd (Quad_splitAtTime ROps (seg3R s) (FR t))) (25 * u * M + 10 * eta).
+Proof. exact quad_split_float_close. Qed.
+Theorem C01_cubic_split_float_close :
+  forall M (s : seg4 float) t, M <= Mcap -> seg4_ok M s -> t_ok t -> seg4_close (fst (Cubic_splitAtTime FOps s t)) (fst (Cubic_splitAtTime ROps (seg4R s) (FR t))) (73 * u * M + 22 * eta) /\ seg4_close (snd (Cubic_splitAtTime FOps s t)) (snd (Cubic_splitAtTime ROps (seg4R s) (FR t))) (73 * u * M + 22 * eta).
+Proof. exact cubic_split_float_close. Qed.
+Theorem C01_quad_derivative_float_close :
+  forall M (s : seg3 float) t, M <= Mcap -> seg3_ok M s -> t_ok t -> pt_close (Line_pointAtTime FOps (Quad_derivative FOps s) t) (Line_pointAtTime ROps (Quad_derivative ROps (seg3R s)) (FR t)) (41 * u * M + 10 * eta).
+Proof. exact quad_derivative_float_close. Qed.
+Theorem C01_cubic_derivative_float_close :
+  forall M (s : seg4 float) t, M <= Mcap -> seg4_ok M s -> t_ok t -> pt_close (Quad_pointAtTime FOps (Cubic_derivative FOps s) t) (Quad_pointAtTime ROps (Cubic_derivative ROps (seg4R s)) (FR t)) (199 * u * M + 22 * eta).
+Proof. exact cubic_derivative_float_close. Qed.
+Theorem C01_line_eval_float_1e12 :
+  forall M (s : seg2 float) t, M <= Mcap -> seg2_ok M s -> t_ok t -> pt_close (Line_pointAtTime FOps s t) (Line_pointAtTime ROps (seg2R s) (FR t)) (1e-12 * M + bpow radix2 (-1070)).
+Proof. exact line_eval_float_1e12. Qed.
+Theorem C01_quad_eval_float_1e12 :
+  forall M (s : seg3 float) t, M <= Mcap -> seg3_ok M s -> t_ok t -> pt_close (Quad_pointAtTime FOps s t) (Quad_pointAtTime ROps (seg3R s) (FR t)) (1e-12 * M + bpow radix2 (-1070)).
+Proof. exact quad_eval_float_1e12. Qed.
+Theorem C01_cubic_eval_float_1e12 :
+  forall M (s : seg4 float) t, M <= Mcap -> seg4_ok M s -> t_ok t -> pt_close (Cubic_pointAtTime FOps s t) (Cubic_pointAtTime ROps (seg4R s) (FR t)) (1e-12 * M + bpow radix2 (-1070)).
+Proof. exact cubic_eval_float_1e12. Qed.
+Theorem C01_line_eval_float_1e12_rel :
+  forall M (s : seg2 float) t, bpow radix2 (-1000) <= M <= Mcap -> seg2_ok M s -> t_ok t -> pt_close (Line_pointAtTime FOps s t) (Line_pointAtTime ROps (seg2R s) (FR t)) (1e-12 * M).
+Proof. exact line_eval_float_1e12_rel. Qed.
+Theorem C01_quad_eval_float_1e12_rel :
+  forall M (s : seg3 float) t, bpow radix2 (-1000) <= M <= Mcap -> seg3_ok M s -> t_ok t -> pt_close (Quad_pointAtTime FOps s t) (Quad_pointAtTime ROps (seg3R s) (FR t)) (1e-12 * M).
+Proof. exact quad_eval_float_1e12_rel. Qed.
+Theorem C01_cubic_eval_float_1e12_rel :
+  forall M (s : seg4 float) t, bpow radix2 (-1000) <= M <= Mcap -> seg4_ok M s -> t_ok t -> pt_close (Cubic_pointAtTime FOps s t) (Cubic_pointAtTime ROps (seg4R s) (FR t)) (1e-12 * M).
+Proof. exact cubic_eval_float_1e12_rel. Qed.
+Theorem C01_lerp_float_1e12 :
+  forall M (a b : pt float) t, M <= Mcap -> pt_ok M a -> pt_ok M b -> t_ok t -> pt_close (Point_lerp FOps a b t) (Point_lerp ROps (ptR a) (ptR b) (FR t)) (1e-12 * M + bpow radix2 (-1070)).
+Proof. exact lerp_float_1e12. Qed.
+Theorem C01_line_split_float_1e12 :
+  forall M (s : seg2 float) t, M <= Mcap -> seg2_ok M s -> t_ok t -> seg2_close (fst (Line_splitAtTime FOps s t)) (fst (Line_splitAtTime ROps (seg2R s) (FR t))) (1e-12 * M + bpow radix2 (-1070)) /\ seg2_close (snd (Line_splitAtTime FOps s t)) (snd (Line_splitAtTime ROps (seg2R s) (FR t))) (1e-12 * M + bpow radix2 (-1070)).
+Proof. exact line_split_float_1e12. Qed.
+Theorem C01_quad_split_float_1e12 :
+  forall M (s : seg3 float) t, M <= Mcap -> seg3_ok M s -> t_ok t -> seg3_close (fst (Quad_splitAtTime FOps s t)) (fst (Quad_splitAtTime ROps (seg3R s) (FR t))) (1e-12 * M + bpow radix2 (-1070)) /\ seg3_close (snd (Quad_splitAtTime FOps s t)) (snd (Quad_splitAtTime ROps (seg3R s) (FR t))) (1e-12 * M + bpow radix2 (-1070)).
+Proof. exact quad_split_float_1e12. Qed.
+Theorem C01_cubic_split_float_1e12 :
+  forall M (s : seg4 float) t, M <= Mcap -> seg4_ok M s -> t_ok t -> seg4_close (fst (Cubic_splitAtTime FOps s t)) (fst (Cubic_splitAtTime ROps (seg4R s) (FR t))) (1e-12 * M + bpow radix2 (-1070)) /\ seg4_close (snd (Cubic_splitAtTime FOps s t)) (snd (Cubic_splitAtTime ROps (seg4R s) (FR t))) (1e-12 * M + bpow radix2 (-1070)).
+Proof. exact cubic_split_float_1e12. Qed.
+Theorem C01_quad_derivative_float_1e12 :
+  forall M (s : seg3 float) t, M <= Mcap -> seg3_ok M s -> t_ok t -> pt_close (Line_pointAtTime FOps (Quad_derivative FOps s) t) (Line_pointAtTime ROps (Quad_derivative ROps (seg3R s)) (FR t)) (1e-12 * M + bpow radix2 (-1070)).
+Proof. exact quad_derivative_float_1e12. Qed.
+Theorem C01_cubic_derivative_float_1e12 :
+  forall M (s : seg4 float) t, M <= Mcap -> seg4_ok M s -> t_ok t -> pt_close (Quad_pointAtTime FOps (Cubic_derivative FOps s) t) (Quad_pointAtTime ROps (Cubic_derivative ROps (seg4R s)) (FR t)) (1e-12 * M + bpow radix2 (-1070)).
+Proof. exact cubic_derivative_float_1e12. Qed.
+Theorem C01_quad_eval_example :
+  pt_close (Quad_pointAtTime FOps ex_quad ex_t) (Quad_pointAtTime ROps (seg3R ex_quad) (FR ex_t)) (1e-12 * 150).
+Proof. exact quad_eval_example. Qed.
 
 Print Assumptions C01_line_eval_is_bernstein.
 Print Assumptions C01_quad_eval_is_bernstein.
@@ -76,3 +149,25 @@ Print Assumptions C01_quad_split_retrace.
 Print Assumptions C01_cubic_split_retrace.
 Print Assumptions C01_lerp.
 Print Assumptions C01_example_split.
+Print Assumptions C01_lerp_float_close.
+Print Assumptions C01_line_eval_float_close.
+Print Assumptions C01_quad_eval_float_close.
+Print Assumptions C01_cubic_eval_float_close.
+Print Assumptions C01_line_split_float_close.
+Print Assumptions C01_quad_split_float_close.
+Print Assumptions C01_cubic_split_float_close.
+Print Assumptions C01_quad_derivative_float_close.
+Print Assumptions C01_cubic_derivative_float_close.
+Print Assumptions C01_line_eval_float_1e12.
+Print Assumptions C01_quad_eval_float_1e12.
+Print Assumptions C01_cubic_eval_float_1e12.
+Print Assumptions C01_line_eval_float_1e12_rel.
+Print Assumptions C01_quad_eval_float_1e12_rel.
+Print Assumptions C01_cubic_eval_float_1e12_rel.
+Print Assumptions C01_lerp_float_1e12.
+Print Assumptions C01_line_split_float_1e12.
+Print Assumptions C01_quad_split_float_1e12.
+Print Assumptions C01_cubic_split_float_1e12.
+Print Assumptions C01_quad_derivative_float_1e12.
+Print Assumptions C01_cubic_derivative_float_1e12.
+Print Assumptions C01_quad_eval_example.
